@@ -75,6 +75,53 @@ def validate_parallel(ctx, runs, tag, groups=6):
     return rejected
 
 
+def stress_histories(ctx):
+    """Read-your-write at full speed: writers with a key of their own put and read back in tight loops while one goroutine flushes
+    (rotates the log) hundreds of times per second; nothing is traced while it runs.  The writers' histories (keys are disjoint,
+    each writer sequential) are validated by TLC against KevoLin like every other history."""
+    runs = 6 if ctx.quick() else 24
+
+    def one(i):
+        d = ctx.sub(f'lin-stress-{i}')
+        import shutil
+        shutil.rmtree(os.path.join(d, 'db'), ignore_errors=True)
+        hist = os.path.join(d, 'hist.ndjson')
+        args = [ctx.kvh(), 'seq-stress', '-dir', os.path.join(d, 'db'), '-out', os.path.join(d, 'stream.ndjson'), '-hist', hist,
+                '-histops', str(1200 if ctx.quick() else 4000), '-ms', str(1500 if ctx.quick() else 5000), '-writers', str(2 + i % 3),
+                '-mem', str([65536, 16384, 262144][i % 3]), '-sync', str([0, 1, 0][i % 3])]
+        p = subprocess.run(args, capture_output=True, text=True, timeout=300)
+        if p.returncode != 0 or not os.path.exists(hist):
+            raise Infra(f'seq-stress run {i}: rc={p.returncode} {p.stderr[-300:]}')
+        return read_ndjson(hist), args
+    with cf.ThreadPoolExecutor(max_workers=6) as ex:
+        recs = list(ex.map(one, range(runs)))
+    # a recording holds the head of every writer's history and, behind further reset events, the surroundings of every read that
+    # did not show the last acknowledged write: each part is a history of its own
+    split = []
+    for ev, args in recs:
+        cur = []
+        for e in ev:
+            if e.get('e') == 'reset' and cur:
+                split.append((cur, args))
+                cur = []
+            cur.append(e)
+        if cur:
+            split.append((cur, args))
+    ctx.notes['stress_suspicious_reads_judged'] = len(split) - len(recs)
+    recs = split
+    ctx.traces += runs
+    ctx.notes['stress_history_events'] = sum(len(r[0]) for r in recs)
+    bad = validate_parallel(ctx, [r[0] for r in recs], 'lin-stress', groups=3)
+    if bad:
+        # a matter of scheduling: a second rejected history of the same kind (in this batch or in 6 more runs) is the reproduction
+        more = bad[1:] or validate_parallel(ctx, [one(100 + k)[0] for k in range(6)], 'lin-stress-repro', groups=3)
+        what = 'full-speed writers reading their own key back while the log is rotated: the recorded history has no linearisation'
+        if more:
+            ctx.violations.append({'what': what, 'replay': save_replay(ctx, 'lin', {'stress': True, 'args': recs[bad[0]][1][1:], 'trace': recs[bad[0]][0][:400]})})
+        else:
+            ctx.unreproduced.append({'what': what, 'args': recs[bad[0]][1][1:]})
+
+
 def check_C06(ctx):
     ctx.assumptions += ['schedules are sampled (seeded clients, yield perturbation at the hook sites, tiny memtables, background flush/compaction); '
                         'each recorded history is decided exactly by TLC',
@@ -109,6 +156,7 @@ def check_C06(ctx):
         path = save_replay(ctx, 'lin', {'args': recs[i][1][1:], 'trace': runs[i]})
         ctx.violations.append({'what': what, 'replay': path})
     # deterministic interleavings: the flush path parked at each of its steps while clients write and read
+    stress_histories(ctx)
     jobs = [(s_, imm, ()) for s_ in GATED_SITES for imm in (False, True)]
     # and the other way round: a WRITER parked inside its append / insert while the flush path (rotation) runs against it
     jobs += [(s_, False, ('-parkwriter', '-sync', str(sy))) for s_ in ('wal.append.written', 'wal.sync.flushed', 'sm.put.logged', 'sl.insert.node_next')
@@ -153,6 +201,10 @@ def check_C06(ctx):
 
 
 def replay_saved(ctx, payload):
+    if payload.get('stress'):
+        ctx.violations = []
+        stress_histories(ctx)
+        return {'what': ctx.violations[0]['what']} if ctx.violations else None
     if validate_batch(ctx, 'KevoLin', 'KevoLin.cfg', [payload['trace']], 'replay-saved', done_inv='NotDone'):
         return {'what': 'the saved history has no linearisation'}
     return None
